@@ -356,6 +356,19 @@ def run(ctx):
     if n_c == 0:
         ctx.ok('C17.1-not-cancelled-inside', 'edp_node', ('the registration is removed by a destructor (%s)' % dtor[0]) if dtor else 'no registering future (%s) is wrapped in a timeout / select / abort' % ', '.join(sorted(x.rsplit('::', 1)[-1] for x in reg)))
 
+    # the reply may arrive as soon as the request is on the wire: the call must be in the table before that
+    ctx.rule('C17.1-register-before-send', 'the registration in the table of outstanding calls dominates the call that sends the request: a reply that arrives before the registration finds no entry and is dropped, '
+             'and the caller waits for its timeout', floor=1)
+    sends = [(bb, t) for bb, t in B.calls() if any(n.startswith('edp_client::connection::Connection::send') for n in callee_names(t))]
+    if ctx.anchor(bool(sends), RPC + ': a Connection::send* call'):
+        for sb, st_ in sends:
+            nm_ = [n for n in callee_names(st_) if n.startswith('edp_client::connection::Connection::send')][0].rsplit('::', 1)[1]
+            if B.block_dominates(ib, sb) and ib != sb:
+                ctx.ok('C17.1-register-before-send', nm_, 'pending_rpcs.insert dominates the send', ctx.where(B, sb))
+            else:
+                ctx.bad('C17.1-register-before-send', nm_, 'the request is sent by %s before (or without) the call being registered in pending_rpcs: a quick reply is routed while the table has no entry for it' % nm_,
+                        ctx.where(B, sb), key='DOM:%s:send-before-register' % RPC)
+
 
 def exit_desc(B, bb):
     """line-number-free description of an exit: what error/value it returns"""
